@@ -236,8 +236,7 @@ def unit_getitem(tier=None, seed=None):
             else:
                 S.ensure("default_when_not_stored", z3.Not(p) if not isinstance(p, bool) else z3.BoolVal(not p))
                 S.ensure("default_is_the_documented_one", rv is default or I.truth(I.equals(rv, default)), case=case)
-        e = fm.data.d.get(key) if fm.kind == "json" else None
-        S.ensure("read_value_written_through", e is not None and e[0] is True and e[1] is rv, case=case)
+        # (that a read writes the returned default back into the file is nanite's way, not part of the property)
         if not st["empty"]:
             S.ensure("no_other_key_changed", all(_entry_same(fm, snap, k) for k in snap if k != key), case=case)
         S.ensure("profile_object_keeps_no_state", _stateless(st["o"]), case=case)
@@ -266,22 +265,17 @@ def unit_init(tier=None, seed=None):
             S.fail("constructs", repr(out))
             return
         o = out.value
-        if st["empty"]:
-            for k in st["keys"]:
-                e = fm.data.d.get(k) if fm.kind == "json" else None
-                S.ensure("empty_file_gets_the_defaults", e is not None and e[0] is True
-                         and (e[1] is st["defaults"].d[k][1] or S.I.truth(S.I.equals(e[1], st["defaults"].d[k][1]))),
-                         case={"key": k})
-        # a new object changes no stored value and fills in the documented defaults
+        # a new object changes no stored value (it may fill in defaults for keys that are not stored; whether it
+        # does is not part of the property)
         for k in snap:
             p, v = snap[k]
             e = fm.data.d.get(k)
             if k in st["keys"]:
-                ok = e is not None and e[0] is True
-                S.ensure("every_default_key_present_afterwards", ok, case={"key": k})
-                if ok and e[1] is not v:
+                if e is None or e[0] is not True or e[1] is not v:
                     S.ensure("stored_values_survive_a_new_object", z3.Not(p) if not isinstance(p, bool) else not p,
                              witness=k)
+                else:
+                    S.ok("stored_values_survive_a_new_object")
             else:
                 S.ensure("other_keys_untouched", _entry_same(fm, snap, k), case={"key": k})
         S.ensure("profile_object_keeps_no_state", _stateless(o))
@@ -327,10 +321,15 @@ def unit_get_fit_params(tier=None, seed=None):
                      V.bterm(a["vary"]) == z3.If(pf, V.bterm(vals[kf]), dt[pn]["vary"]), witness=pn)
             S.ensure("bounds_are_the_model_defaults",
                      z3.And(V.rterm(a["min"]) == dt[pn]["min"], V.rterm(a["max"]) == dt[pn]["max"]), witness=pn)
-            for kk, field in ((kv, "value"), (kf, "vary")):
+            # reading the parameters never alters an entry that IS stored (defaults may or may not be written back)
+            for kk, pres, rd in ((kv, pv, lambda t: V.rterm(t)), (kf, pf, lambda t: V.bterm(t))):
                 e = fm.data.d.get(kk)
-                S.ensure("returned_parameters_written_back", e is not None and e[0] is True
-                         and I.truth(I.equals(e[1], a[field])), witness=kk)
+                if e is None:
+                    S.ensure("stored_fit_parameters_not_altered", z3.Not(pres), witness=kk)
+                else:
+                    now_p = e[0] if not isinstance(e[0], bool) else z3.BoolVal(e[0])
+                    S.ensure("stored_fit_parameters_not_altered",
+                             z3.Implies(pres, z3.And(now_p, rd(e[1]) == rd(vals[kk]))), witness=kk)
         for k in snap:
             if not k.startswith("fit param"):
                 S.ensure("no_other_key_changed", _entry_same(fm, snap, k), case={"key": k})
